@@ -15,7 +15,6 @@ import (
 	"hash/fnv"
 	"sync"
 	"syscall"
-
 )
 
 // Task states.
@@ -78,10 +77,10 @@ type Sched struct {
 	Deadlock bool
 	StepCap  bool
 	// reach counters
-	BlockedWaits int // times a task had to wait (lock held by a parked task, empty transport, condition)
-	LockWaits    int // ... of which for a lock
-	Switches     int // token hand-overs
-	Stuck    []string // description of blocked tasks at a deadlock
+	BlockedWaits int      // times a task had to wait (lock held by a parked task, empty transport, condition)
+	LockWaits    int      // ... of which for a lock
+	Switches     int      // token hand-overs
+	Stuck        []string // description of blocked tasks at a deadlock
 	// OnQuiesce is called (in the context of the task that found nothing runnable)
 	// when unfinished tasks exist but none is runnable; it may wake tasks and
 	// return true to continue.
